@@ -705,7 +705,7 @@ pub fn run_check(args: &Args) -> i32 {
         "model = connection-level rule machine (control stream absent / type only / SETTINGS seen / closed; QPACK encoder / decoder stream opened; CONNECT pending; session established; dead) over 52 peer events (server role) / 24 (client role): control stream opened with SETTINGS / GREASE first / DATA first / HEADERS first / reserved setting id / truncated SETTINGS / oversize frame / type only, second SETTINGS, DATA / HEADERS / WT signal / GREASE / GOAWAY on it, FIN, RESET, FIN inside a frame; QPACK streams opened, duplicated, finished, reset; unknown / GREASE / push uni streams; uni stream finished or reset before its type is complete; WT uni / bidi streams with invalid session id or naming no session; valid CONNECT, GREASE + unknown frame then CONNECT, GET, CONNECT without :protocol / :path, wrong scheme, DATA first, SETTINGS, undecodable QPACK, oversize, empty FIN, FIN inside a frame; SETTINGS / WT signal / GREASE / RESET / truncated frame / close capsule / FIN on the session stream; empty and foreign datagrams. Every history of depth <= bound generated by the machine (a history ends at the first connection error) is replayed by a raw peer against the running driver; after each event the observed reaction (alive, session offered + 200, request stream refused, CONNECTION_CLOSE code) must be the prescribed one, and after a history of permitted events a valid session must still be accepted",
     );
     rep.assume("Unspecified cells (second CONNECT on a connection, push stream towards a client) end a history without a verdict; implementation limit 4096 bytes per frame gives H3_EXCESSIVE_LOAD");
-    let depth = if args.tier == Tier::Thorough { 4 } else { 3 };
+    let depth = if args.tier >= Tier::Deep { 5 } else if args.tier >= Tier::Thorough { 4 } else { 3 };
     let mut scs = traces(true, depth, Some(&rep));
     scs.extend(traces(false, depth, Some(&rep)));
     rep.extra("depth_bound", json!(depth));
